@@ -201,12 +201,21 @@ class SeparateFiles(Contract):
         names = self.call_names(fn, args, kwargs, I)
         path, obj = V.lower(names["path"]), V.lower(names["obj"])
         from pyvc.contract import Args
-        self.check_decreases(I, Args(path=path, obj=obj))
+        if I.ctx.current_key == tuple(self.target.split(":")):       # a recursive call: the argument must be a proper sub-term
+            self.check_decreases(I, Args(path=path, obj=obj))
         env = fn.env
         Lc, Mc = _state(env)
         I.p.oblige("pre@separate_files.bookkeeping-invariant", bookkeeping(Lc, Mc), "pre@call")
         La, Ma = AFTER_L(path, obj, Lc, Mc), AFTER_M(path, obj, Lc, Mc)
         fl, fm = env.lookup("files_list"), env.lookup("files_map")
+        if isinstance(fl, list) and isinstance(fm, dict):
+            # called from the enclosing method: its two local containers (still concrete) become symbolic; they are bound in the
+            # scope that defines the closure and are not aliased anywhere else at this point
+            e = env
+            while e is not None and "files_list" not in e.vars:
+                e = e.parent
+            fl, fm = MList(V.lower(fl)), MDict(V.lower(fm))
+            e.vars["files_list"], e.vars["files_map"] = fl, fm
         if not isinstance(fl, MList) or not isinstance(fm, MDict):
             from pyvc.interp import Unsupported
             raise Unsupported("files_list / files_map are not a list and a dict any more")
@@ -291,4 +300,7 @@ def replay_separation(module, klass):
     return rep
 
 
+# (The enclosing method - empty bookkeeping state, path "variables", the form parts built from files_list by a dict comprehension
+#  over enumerate() with computed keys - is outside the engine's comprehension rule; it is covered by the exhaustive bounded stand-in
+#  c11_multipart.bounded_separation and by the wire stand-in.)
 CONTRACTS = [SeparateFiles(m, k) for m, k in CLIENTS]
